@@ -663,14 +663,32 @@ func (d *Decoder) ShardCounts() ShardCounts {
 // error is returned. If checkParity is true, extra checking is done
 // of the reconstructed parity data.
 func (d *Decoder) Repair(checkParity bool) ([]string, error) {
-	coder, dataShards, err := d.newCoderAndShards()
-	if err != nil {
-		return nil, err
-	}
+	var coder rsec16.Coder
+	var dataShards [][]byte
+	var err error
+	if len(d.fileIntegrityInfos) != 0 && len(d.parityShards) == 0 {
+		// Without parity shards nothing can be reconstructed
+		// (or double-checked), but files can still be
+		// reassembled if all their shards were found.
+		if d.ShardCounts().RepairNeeded() {
+			return nil, rsec16.NotEnoughParityShardsError{}
+		}
+		for _, info := range d.fileIntegrityInfos {
+			for _, shardInfo := range info.shardInfos {
+				dataShards = append(dataShards, shardInfo.data)
+			}
+		}
+		checkParity = false
+	} else {
+		coder, dataShards, err = d.newCoderAndShards()
+		if err != nil {
+			return nil, err
+		}
 
-	err = coder.ReconstructData(dataShards, d.parityShards)
-	if err != nil {
-		return nil, err
+		err = coder.ReconstructData(dataShards, d.parityShards)
+		if err != nil {
+			return nil, err
+		}
 	}
 
 	if checkParity {
